@@ -92,6 +92,7 @@ fn main() {
                 "c11_attach" => ("C11", mt::part_c11_attach(tier)),
                 "c06_std" => ("C06", c06s::part_std(tier, false)),
                 "c08_exec" => ("C08", c08::part_exec(tier)),
+                "c08_dap" => ("C08", c08::part_dap_args(tier)),
                 "c16_vard" => ("C16", c06s::part_vard(tier)),
                 "c18_shlib" => ("C18", c18s::part_shlib(tier)),
                 "c17_names" => ("C17", c17e::part_names(tier)),
@@ -194,6 +195,7 @@ fn run_check(id: &str, tier: Tier) -> i32 {
             let mut r = Report::new("C08", tier, "exploration");
             r.parts.push(c08::part_parsers(tier));
             r.parts.push(c08::part_exec(tier));
+            r.parts.push(c08::part_dap_args(tier));
             finish(r)
         }
         "C09" => {
